@@ -591,6 +591,29 @@ def _overlay(ck, p, byk):
             continue
         cfg = Cfg(f)
         pv = Prov(f, opaque=["core::clone::Clone::clone"])
+        if "config" not in arg_fields(pv, t["args"][0]):
+            # the defaults are filled into a *copy*, which is then swapped in: mem::replace(&mut self..config, copy)
+            # hands back the user's configuration, and that is what has to be assigned back after the lint call
+            swaps = [(sb, st) for sb, st in f.calls() if last(norm(inst_of(st) or def_of(st) or "")) in ("replace", "swap", "take") and "mem" in norm(inst_of(st) or def_of(st) or "") and st["args"] and "config" in arg_fields(pv, st["args"][0]) and cfg.dominates(bi, sb)]
+            if len(swaps) != 1 or last(norm(inst_of(swaps[0][1]) or "")) != "replace":
+                ck.undecided(rule, key, f.loc(t["ln"]), "fill_with_curated() is applied to a copy of the configuration; how the copy is put in place and the user's configuration kept is not of a recognised form")
+                continue
+            sb, st = swaps[0]
+            restores = []
+            for rb, si, s2 in blocks_assigning_field(f, "config"):
+                if s2["rv"]["k"] != "use":
+                    continue
+                src = flatten(pv.trace_operand(s2["rv"]["op"]))
+                if any(o[0] == "call" and o[1] == sb for o in src):
+                    restores.append(rb)
+            if not restores:
+                ck.refuted(rule, key, f.loc(st["ln"]), "the configuration that mem::replace hands back when the filled copy is put in place is never assigned back")
+                continue
+            ok, wit = cfg.every_path_passes(sb, restores)
+            lint_between = [lb for lb, lt in f.calls() if def_of(lt) == "harper_core::linting::Linter::lint" and cfg.dominates(sb, lb) and any(cfg.dominates(lb, r) for r in restores)]
+            ck.decide(rule, key, ok and bool(lint_between), f.loc(t["ln"]),
+                      "defaults filled into a copy, copy swapped in by mem::replace at bb%s, the configuration it hands back restored at bb%s on every path to return=%s%s, lint call between=%s" % (sb, restores, ok, "" if ok else " (path %s)" % wit, bool(lint_between)))
+            continue
         # saved copy: a clone of the same `config` place that dominates the overlay
         clones = [(cb, ct) for cb, ct in f.calls() if method(ct) == "clone" and "config" in arg_fields(pv, ct["args"][0]) and cfg.dominates(cb, bi)]
         if not clones:
